@@ -77,6 +77,10 @@ package recover
 //@       !emits Sess.Put(_, _) && !emits Sess.Del(_) && !emits Sess.DelAll(_) && !emits Cook.Put(_, _) && !emits Cook.Del(_) &&
 //@       !emits HeaderSet(_, _, _) && !emits WriteHeader(_, _) && !emits Write(_, _) && !emits HTTPRedirect(_, _, _)
 //@   ensures[C16] unknown_account_fakes_success: each Store.Load(_) -> (_, ?le) => le == ErrUserNotFound ==> (after Redirect(_) && !emits Respond(_, _, _))
+//@   -- C16(b): for an existing account nothing the mail step does changes the answer: unless the
+//@   -- after-event itself fails, a saved request ends in the same redirect an unknown account gets
+//@   ensures[C16] mail_outcome_invisible: each Store.Save(_) -> ?e => (e == nil && !panics &&
+//@       !(emits Fire("After", EventRecoverStart, _, _, _) -> (_, ?fe) :: fe != nil)) ==> after Redirect(_)
 //@   ensures[C16] known_account_same_answer: (result == nil && !emits Respond(_, _, _) && !(emits Fire("Before", _, _, _, _) -> (?hd, _) :: hd)) ==> emits Redirect(_)
 //@
 //@ func (*Recover).EndGet
